@@ -7,12 +7,50 @@ newline x gzip x file extension) of one genome must give the identical signature
 specification [signature_spec] (op 103) of the contig list and to the union of the per-contig signatures.
 The text layer of the model (universal newlines + FastaIterator, Model/C06Fasta.v) and the compression
 detection (Model/C06Gzip.v) are compared with SequenceFile.parse / open_compressed on well-formed and
-malformed content."""
+malformed content.
+
+Coverage audit (item of the property text -> stream that drives it on the IMPLEMENTATION; P = the property predicate
+"signature == k-mer set of the contigs == union of per-contig signatures" is judged there, M = also tied to the model):
+
+  clause / quantifier element            streams (numbers as in generate(); A..H were added by the audit)
+  reverse-complement any contig          1 exhaustive masks, 3 random (P,M); C: ambiguity codes complemented as tools do (P,M)
+  reorder contigs                        1, 3 (P,M); F: duplicated contigs, a contig + its reverse complement, 30+ contigs (P,M)
+  letter case                            1, 3 (P,M): keep / upper / lower / per-byte mixed
+  any line width >= 1                    1 every width 1..max+1, 3 (P,M); B: a different width per record / per line (P,M);
+                                         G: widths 1, 4095..8192, 65536 on files of 100-600 kB (P)
+  LF / CRLF                              1, 3 (P,M); B: mixed within one file (P,M); G: CR LF split by 8 KiB reads and by
+                                         gzip member boundaries (P)
+  final newline dropped                  1, 3, B, G (P,M)
+  gzip                                   1, 3 gzip.compress level 9 only (P,M); A: levels 1/0 (stored), FNAME header as gzip(1)
+                                         writes, all optional header fields, multi-member, BGZF (P,M); 5/open-flavours (M)
+  compression from content, not name     1, 3 eight extensions x gz/plain (P,M); D: spaces, non-ASCII, .GZ, .bz2/.zip/.xz,
+                                         leading dash/dot, shell characters, 160-char names (P,M); 5 (M)
+  = union of per-contig signatures       every genome case: calc_signature per contig (P) and signature_spec per contig (M)
+  no k-mer across a contig boundary      1, 3, A..G joints "prefix | k letters" planted; counter "boundary-sensitive variant"
+  all multi-contig genomes: size         0-8 contigs of 0-300 bytes in 1-3; G: contigs of 64-128 kB (1 MB thorough), 150 contigs,
+                                         matches planted across offsets 2^9..2^17; judged by P alone (model too slow, see _pyspec)
+  k / prefix                             3: k 1..16, prefix 1..4 (API); E, H: k 17, 20, 31, 32 (uint64), prefix up to 6, default 11/ATGAC
+  calc_file_signature                    all genome streams, positional call, compression 'auto'; H: str / pathlib / relative path,
+                                         .absolute(), from_paths, keyword arguments, explicit compression 'gzip' / None / 'none',
+                                         accumulator= Set/Array (fresh, and reused after clear()), the same SequenceFile twice,
+                                         KmerSpec from numpy int / bytes / lower-case prefix, open_compressed() default (P)
+  calc_file_signatures (wrapper)         H: concurrency None / threads / positional, a different genome and a repeated file in
+                                         the list (P); processes: through the CLI; executors and failures: C13
+  gambit signatures create               1-3: positional files, -c 2, -k/-p given; E (+A, D, G): -l list file, -l + --ldir, no -c,
+                                         -c 1, -c 3, default k-mer spec (no -k/-p), k > 11 (P)
+  gambit dist (same code path)           H: rows of all variants identical, distance 0 to the canonical file (P, through 4 decimals)
+  not driven here                        gambit query / tree and gambit.query.query_parse (need a database / tree: C04, C09, C17
+                                         call the same calc_file_signatures); --db-params; non-ASCII file content (locale dependent);
+                                         bare-CR line ends, blank lines, ';' comments: only model vs parser (stream 4), not stated
+                                         by the property."""
 import gzip
 import io
 import itertools
 import os
 import random
+import shutil
+import struct
+import zlib
 
 import numpy as np
 
@@ -21,7 +59,15 @@ RULE = ('genome: (k, prefix, contigs, variants) -> for every variant file calc_f
         '== union of per-contig calc_signature (== model of the whole file pipeline), plus the CLI on the same files; '
         'non-trivial: >= 2 contigs, non-empty signature, and the variant differs from the canonical file in orientation, '
         'order, case, layout or compression | parse: model parse_fasta vs SequenceFile.parse sequences (or ValueError) | '
-        'open: model is_gzip_magic/open_auto vs guess_compression/open_compressed(...,"auto") under arbitrary file names')
+        'open: model is_gzip_magic/open_auto vs guess_compression/open_compressed(...,"auto") under arbitrary file names | '
+        'audit streams (same genome predicate): gzip flavours (levels, stored, FNAME, all header fields, multi-member, BGZF), '
+        'ragged layouts (width and LF/CRLF chosen per record or per line), reverse complement with ambiguity codes complemented, '
+        'unusual file names, CLI forms (-l, --ldir, no -c, -c 1/3, default k-mer spec, k up to 32), repeated contigs, large genomes '
+        '(64 kB-128 kB contigs, 150 contigs; above 4096 bases the model is not run and the case is judged by the predicate against '
+        'the harness\'s own _pyspec, which is compared with signature_spec on every smaller case) | forms: each call form '
+        '(path types, relative path, from_paths, explicit compression, caller-supplied / reused accumulators, KmerSpec argument types, '
+        'calc_file_signatures with concurrency None/threads over variants + another genome + a repeated file, gambit dist rows) '
+        'gives the k-mer set of the genome; non-trivial: non-empty signature')
 TRUSTED = ['hand model of io.TextIOWrapper(newline=None) and Biopython 1.88 FastaIterator on ASCII text (Model/C06Fasta.v), '
            'validated against SequenceFile.parse on every run, not verified',
            'zlib/gzip: Section variable gunzip with hypotheses gunzip(gzip x) = x and gzip x starts with 1f 8b; the '
@@ -29,7 +75,10 @@ TRUSTED = ['hand model of io.TextIOWrapper(newline=None) and Biopython 1.88 Fast
            'C01 (Props/C01.v): model of calc_signature = signature_spec; tools/pyx2v.py for the encoders']
 ASSUMPTIONS = ['file content is ASCII (decoding is the identity; other bytes depend on the locale encoding)',
                'sequence bytes are not space/tab/CR/LF/">" and titles contain no CR/LF (wf_contig, checked on every generated genome)',
-               'prefix is non-empty upper-case ACGT, k >= 1 (KmerSpec validates it); the CLI is exercised for k >= 5, prefix length >= 2',
+               'prefix is non-empty upper-case ACGT, k >= 1 (KmerSpec validates it); the CLI is exercised for k >= 5, prefix length >= 2 '
+               '(it refuses anything smaller); k <= 32',
+               'genomes above 4096 bases and ragged layouts are judged by the property predicate; the model comparison is skipped for the '
+               'former (quadratic cost) and the render_fasta comparison for the latter (a different writer)',
                'the file is opened with compression="auto" as every CLI command does (SequenceFile\'s own default None means "none")']
 
 _TR = bytes.maketrans(b'ACGTacgt', b'TGCAtgca')
@@ -49,6 +98,126 @@ def _rc(b):
 	return bytes(b).translate(_TR)[::-1]
 
 
+_IUPAC = bytes.maketrans(b'ACGTRYKMBVDHacgtrykmbvdh', b'TGCAYRMKVBHDtgcayrmkvbhd')
+
+
+def _rc_iupac(b):
+	"""reverse complement as seqtk / Biopython write it: ambiguity codes are complemented too"""
+	return bytes(b).translate(_IUPAC)[::-1]
+
+
+_CODE = {65: 0, 67: 1, 71: 2, 84: 3}
+
+
+def _pyspec(k, p, contigs):
+	"""the harness's own statement of the specification (set of prefix-anchored k-mers on both strands of every
+	contig, case-blind), used where the extracted specification is too slow (its cost is quadratic in the contig
+	length); compared with signature_spec (op 103) on every case that is small enough for the model"""
+	out = set()
+	n = len(p)
+	for s in contigs:
+		u = bytes(s).upper()
+		for strand in (u, _rc(u)):
+			i = strand.find(p)
+			while i >= 0:
+				w = strand[i + n:i + n + k]
+				if len(w) == k:
+					x = 0
+					for ch in w:
+						d = _CODE.get(ch)
+						if d is None:
+							break
+						x = x * 4 + d
+					else:
+						out.add(x)
+				i = strand.find(p, i + 1)
+	return sorted(out)
+
+
+def _gen_contigs(g, k, p):
+	"""contigs of a generated (large) genome, reproducible from the small description g = {seed, lens, alpha}: random
+	letters, with a full prefix+k-mer match (either strand, sometimes lower case) planted across every power-of-two
+	offset 2^9..2^17 (I/O buffer, text chunk and window sizes), at both ends and at a few random places"""
+	r = random.Random(g['seed'])
+	alpha = g.get('alpha', 'ACGT').encode()
+	out = []
+	for ln in g['lens']:
+		b = bytearray(r.choices(alpha, k=ln))
+		offs = [1 << e for e in range(9, 18) if (1 << e) <= ln] + [r.randrange(ln + 1) for _ in range(min(6, ln))] + [0, ln]
+		for o in offs:
+			m = p + bytes(r.choices(b'ACGT', k=k))
+			if r.random() < 0.5:
+				m = _rc(m)
+			if r.random() < 0.3:
+				m = m.lower()
+			if ln >= len(m):
+				st = max(0, min(ln - len(m), o - r.randint(0, len(m))))
+				b[st:st + len(m)] = m
+		out.append(bytes(b))
+	return out
+
+
+# ---- gzip flavours (RFC 1952): what tools other than Python's gzip.compress write ------------------------------
+GZMODES = ['l1', 'l0', 'fname', 'hdr', 'multi', 'multi-eol', 'bgzf']
+
+
+def _member(data, flags=0, level=6, mtime=0, extra=b'', fname=b'', comment=b'', xfl=0, osb=255):
+	"""one hand-built gzip member"""
+	hdr = b'\x1f\x8b\x08' + bytes([flags]) + struct.pack('<IBB', mtime, xfl, osb)
+	if flags & 4:
+		hdr += struct.pack('<H', len(extra)) + extra
+	if flags & 8:
+		hdr += fname + b'\0'
+	if flags & 16:
+		hdr += comment + b'\0'
+	if flags & 2:
+		hdr += struct.pack('<H', zlib.crc32(hdr) & 0xffff)
+	co = zlib.compressobj(level, zlib.DEFLATED, -15)
+	body = co.compress(data) + co.flush()
+	return hdr + body + struct.pack('<II', zlib.crc32(data), len(data) & 0xffffffff)
+
+
+def _bgzf_block(data):
+	co = zlib.compressobj(6, zlib.DEFLATED, -15)
+	body = co.compress(data) + co.flush()
+	bsize = 18 + len(body) + 8
+	hdr = b'\x1f\x8b\x08\x04' + struct.pack('<IBB', 0, 0, 255) + struct.pack('<H', 6) + b'BC' + struct.pack('<HH', 2, bsize - 1)
+	return hdr + body + struct.pack('<II', zlib.crc32(data), len(data))
+
+
+def gz_blob(data, mode, seed=0):
+	"""gzip-compress data in the flavour `mode` (None: gzip.compress(level 9, mtime 0) as before)"""
+	r = random.Random(seed)
+	if not mode:
+		return gzip.compress(data, mtime=0)
+	if mode == 'l1':
+		return gzip.compress(data, 1, mtime=0)
+	if mode == 'l0':                      # stored blocks
+		return gzip.compress(data, 0, mtime=0)
+	if mode == 'fname':                   # what `gzip genome.fa` writes: FNAME flag, real mtime
+		buf = io.BytesIO()
+		with gzip.GzipFile(filename='genome.fa', mode='wb', fileobj=buf, mtime=1700000000 + r.randrange(1 << 20)) as f:
+			f.write(data)
+		return buf.getvalue()
+	if mode == 'hdr':                     # every optional header field: FHCRC | FEXTRA | FNAME | FCOMMENT
+		return _member(data, flags=2 | 4 | 8 | 16, extra=b'XY\x03\x00abc', fname=b'a b.fa', comment=b'written by harness/c06.py',
+		               mtime=r.randrange(1 << 32), xfl=2, osb=3, level=r.choice([1, 6, 9]))
+	if mode in ('multi', 'multi-eol'):    # several concatenated members (cat a.gz b.gz, pigz -i, ...)
+		cuts = {r.randrange(len(data) + 1) for _ in range(r.randint(1, 4))}
+		if mode == 'multi-eol':           # cut between CR and LF, right after a line end, right after '>'
+			special = [i + 1 for i, ch in enumerate(data) if ch in (13, 10, 62)]
+			cuts |= set(r.sample(special, min(len(special), 4)))
+		cuts = sorted(cuts | {0, len(data)})
+		pieces = [data[a:b] for a, b in zip(cuts, cuts[1:])] or [b'']
+		if r.random() < 0.3:
+			pieces.insert(r.randrange(len(pieces) + 1), b'')      # an empty member
+		return b''.join(_member(x, level=r.choice([1, 6, 9])) for x in pieces)
+	if mode == 'bgzf':                    # bgzip: FEXTRA 'BC' blocks + the empty EOF block
+		size = r.choice([64, 1000, 65280])
+		return b''.join(_bgzf_block(data[i:i + size]) for i in range(0, len(data), size)) + _bgzf_block(b'')
+	raise ValueError(mode)
+
+
 def _recase(b, cseed):
 	"""case pattern of a contig: None keep, 'u' upper, 'l' lower, int -> per-byte random choice"""
 	if cseed is None:
@@ -66,7 +235,7 @@ def apply_variant(contigs, titles, v):
 	out = []
 	for i, (t, s) in enumerate(zip(titles, contigs)):
 		if (v.get('omask', 0) >> i) & 1:
-			s = _rc(s)
+			s = _rc_iupac(s) if v.get('iupac') else _rc(s)
 		cs = v.get('cseed')
 		s = _recase(s, cs if not isinstance(cs, int) else cs + i)
 		out.append((t, s))
@@ -88,14 +257,56 @@ def render(recs, w, crlf, fnl):
 	return data
 
 
+def render_ragged(recs, v):
+	"""a second writer: v['rag'] seeds the layout.  ragmode 'rec': every record has its own width and line ending (files
+	concatenated from differently written parts); 'line': every line has its own width and line ending."""
+	r = random.Random(v['rag'])
+	per_rec = v.get('ragmode') == 'rec'
+	out = bytearray()
+	last = b''
+	for t, s in recs:
+		e_rec = b'\r\n' if r.random() < 0.5 else b'\n'
+		w_rec = r.choice([1, 2, 3, 7, 60, 80, max(1, len(s)), r.randint(1, len(s) + 1)])
+		last = e_rec if per_rec else (b'\r\n' if r.random() < 0.5 else b'\n')
+		out += b'>' + t + last
+		i = 0
+		while i < len(s):
+			w = w_rec if per_rec else r.randint(1, max(1, min(len(s), 90)))
+			last = e_rec if per_rec else (b'\r\n' if r.random() < 0.5 else b'\n')
+			out += s[i:i + w] + last
+			i += w
+	if not v['fnl'] and last:
+		del out[-len(last):]
+	return bytes(out)
+
+
+def _render(recs, v):
+	return render_ragged(recs, v) if v.get('rag') is not None else render(recs, v['w'], v['crlf'], v['fnl'])
+
+
 def _wf(recs):
 	return all(not (set(t) & {10, 13}) and not (set(s) & {32, 9, 13, 10, 62}) for t, s in recs)
 
 
-def _path(ext):
+def _path(ext, name=None):
+	"""a fresh file path; `name` (an unusual base name) is placed in a fresh sub-directory"""
 	global _n
 	_n += 1
-	return os.path.join(_dir, f'g{_n:06d}{ext}')
+	if name is None:
+		return os.path.join(_dir, f'g{_n:06d}{ext}')
+	d = os.path.join(_dir, f'd{_n:06d}')
+	os.makedirs(d, exist_ok=True)
+	return os.path.join(d, name)
+
+
+def _unlink(path):
+	try:
+		os.unlink(path)
+	except OSError:
+		pass
+	d = os.path.dirname(path)
+	if d != _dir and os.path.basename(d).startswith('d'):
+		shutil.rmtree(d, ignore_errors=True)
 
 
 def _msig(ans):
@@ -109,7 +320,21 @@ CANON = dict(omask=0, pseed=None, cseed=None, w=60, crlf=False, fnl=True, gz=Fal
 
 
 def _vdesc(v):
-	return {k: v.get(k) for k in ('omask', 'pseed', 'cseed', 'w', 'crlf', 'fnl', 'gz', 'ext')}
+	d = {k: v.get(k) for k in ('omask', 'pseed', 'cseed', 'w', 'crlf', 'fnl', 'gz', 'ext')}
+	d.update({k: v[k] for k in ('gzm', 'rag', 'ragmode', 'iupac', 'name') if v.get(k) not in (None, False)})
+	return d
+
+
+def _contigs_of(c):
+	"""(contigs, titles, k, prefix bytes) of a genome case; large genomes are described by c['gen'] (see _gen_contigs)"""
+	p = c['prefix'].encode()
+	contigs = _gen_contigs(c['gen'], c['k'], p) if 'gen' in c else [bytes.fromhex(h) for h in c['contigs']]
+	titles = [bytes.fromhex(h) for h in c.get('titles', [])]
+	titles += [b'c%d' % i for i in range(len(titles), len(contigs))]
+	return contigs, titles[:len(contigs)], c['k'], p
+
+
+MODEL_MAX = 4096    # total contig bytes above which the extracted model / specification is not run (quadratic cost)
 
 
 def k_genome(ctx, cases):
@@ -123,35 +348,36 @@ def k_genome(ctx, cases):
 	reqs = []
 	plan = []
 	for c in cases:
-		contigs = [bytes.fromhex(h) for h in c['contigs']]
-		titles = [bytes.fromhex(h) for h in c.get('titles', [])]
-		titles += [b'c%d' % i for i in range(len(titles), len(contigs))]
-		titles = titles[:len(contigs)]
-		p = c['prefix'].encode()
-		k = c['k']
-		base = len(reqs)
-		reqs.append((103, [k, p, contigs]))
-		reqs.append((103, [k, p, [b''.join(contigs)]]))
-		for s in contigs:
-			reqs.append((103, [k, p, [s]]))
+		contigs, titles, k, p = _contigs_of(c)
+		# large genomes: the extracted model and specification are not run (their cost is quadratic in the contig length);
+		# such a case is judged by the property predicate alone, against the harness's own _pyspec
+		nomodel = bool(c.get('nomodel')) or sum(map(len, contigs)) > MODEL_MAX
+		base = None if nomodel else len(reqs)
+		if not nomodel:
+			reqs.append((103, [k, p, contigs]))
+			reqs.append((103, [k, p, [b''.join(contigs)]]))
+			for s in contigs:
+				reqs.append((103, [k, p, [s]]))
 		files = []
 		for v in c['variants']:
 			recs = apply_variant(contigs, titles, v)
-			data = render(recs, v['w'], v['crlf'], v['fnl'])
-			reqs.append((604, [v['w'], v['crlf'], v['fnl'], [[t, s] for t, s in recs]]))
-			reqs.append((606, [0, k, p, data]))
-			reqs.append((607, [[t, s] for t, s in recs]))
-			blob = gzip.compress(data, mtime=0) if v['gz'] else data
-			reqs.append((605, blob))
+			data = _render(recs, v)
+			blob = gz_blob(data, v.get('gzm'), v.get('gzseed', 0)) if v['gz'] else data
+			if not nomodel:
+				reqs.append((604, [v['w'], v['crlf'], v['fnl'], [[t, s] for t, s in recs]]))
+				reqs.append((606, [0, k, p, data]))
+				reqs.append((607, [[t, s] for t, s in recs]))
+				reqs.append((605, blob))
 			files.append((v, recs, data, blob))
 		plan.append((c, contigs, titles, base, files))
-	ans = ctx.model(reqs) if ctx.model_ok else None
+	ans = ctx.model(reqs) if ctx.model_ok and reqs else None
 
 	for c, contigs, titles, base, files in plan:
 		k, p = c['k'], c['prefix']
 		kspec = KmerSpec(k, p)
 		n = len(contigs)
-		if ans is not None:
+		py = _pyspec(k, p.encode(), contigs)
+		if ans is not None and base is not None:
 			spec = ans[base]
 			joined = ans[base + 1]
 			per = ans[base + 2:base + 2 + n]
@@ -159,20 +385,26 @@ def k_genome(ctx, cases):
 			if union != spec:
 				ctx.broke('specification: signature_spec(contigs) is the union of the per-contig sets (C06_union)',
 				          f'{c}: union {union[:20]} spec {spec[:20]}')
+			if py != spec:
+				ctx.broke('harness: _pyspec differs from the extracted signature_spec', f'{str(c)[:300]}: {py[:20]} vs {spec[:20]}')
+			expect = spec
 		else:
-			spec = joined = None
+			spec = None
+			joined = _pyspec(k, p.encode(), [b''.join(contigs)])
+			expect = py
+			if base is None:
+				ctx.count('genomes judged without the model (size)')
 		# union of the implementation's per-contig signatures
 		iu = np.array([], dtype=np.uint64)
 		for s in contigs:
 			iu = np.union1d(iu, calc_signature(kspec, s).astype(np.uint64))
 		iu = [int(x) for x in iu]
-		expect = spec if spec is not None else iu
 		paths = []
 		bad = False
 		for j, (v, recs, data, blob) in enumerate(files):
 			if v['gz'] and (blob[:2] != b'\x1f\x8b' or gzip.decompress(blob) != data):
-				ctx.broke('assumption: gunzip(gzip x) = x and gzip x starts with 1f 8b', f'{len(data)} bytes')
-			path = _path(v['ext'])
+				ctx.broke('assumption: gunzip(gzip x) = x and gzip x starts with 1f 8b', f'{len(data)} bytes, flavour {v.get("gzm")}')
+			path = _path(v['ext'], v.get('name'))
 			with open(path, 'wb') as f:
 				f.write(blob)
 			paths.append(path)
@@ -183,11 +415,15 @@ def k_genome(ctx, cases):
 				got = (type(e).__name__ + ': ' + str(e)[:80], None)
 			nontriv = n >= 2 and len(expect) > 0 and _vdesc(v) != CANON
 			ctx.case(dict(k=k, prefix=p, contigs=n, total=sum(map(len, contigs)), nsig=len(expect), **_vdesc(v),
-			              boundary_sensitive=(joined != spec) if spec is not None else None),
+			              boundary_sensitive=(joined != expect)),
 			         nontrivial=nontriv)
 			ctx.count('ext:' + (v['ext'] or '(none)') + (' gz' if v['gz'] else ' plain'))
-			if spec is not None and joined != spec:
+			if v['gz'] and v.get('gzm'):
+				ctx.count('gzip flavour ' + v['gzm'])
+			if joined != expect:
 				ctx.count('boundary-sensitive variant')
+			if len(data) > 8192 and any(data[i] == 13 and data[i + 1:i + 2] == b'\n' for i in range(8191, len(data), 8192)):
+				ctx.count('file text with a CR LF pair split by an 8 KiB read boundary')
 			one = dict(c, variants=[v])
 			if not _wf(recs):
 				ctx.broke('harness: generated contigs are not well-formed', str(one)[:300])
@@ -203,9 +439,9 @@ def k_genome(ctx, cases):
 				              impl=got[0], union=iu)
 				bad = True
 				continue
-			if ans is not None:
+			if ans is not None and base is not None:
 				o = base + 2 + n + 4 * j
-				if bytes(ans[o]) != data:
+				if v.get('rag') is None and bytes(ans[o]) != data:
 					ctx.broke('correspondence render (harness writer vs render_fasta)', f'{_vdesc(v)}: {data[:60]!r} vs {bytes(ans[o])[:60]!r}')
 				if ans[o + 2] != 1:
 					ctx.broke('model wf_contig rejects a generated genome', str(one)[:300])
@@ -213,22 +449,48 @@ def k_genome(ctx, cases):
 					ctx.broke('correspondence open (is_gzip_magic on a written file)', f'{_vdesc(v)}')
 				m = _msig(ans[o + 1])
 				if m != got:
-					ctx.broke('correspondence file (model text_signature vs calc_file_signature)', f'{one}: impl {str(got)[:200]} model {str(m)[:200]}')
-		# the CLI on the same files
+					ctx.broke('correspondence file (model text_signature vs calc_file_signature)', f'{str(one)[:600]}: impl {str(got)[:200]} model {str(m)[:200]}')
+		# the CLI on the same files.  c['cli'] (optional) chooses the call form: mode args | list (-l, absolute paths) |
+		# ldir (-l with paths relative to --ldir); cores (None: no -c option); defaults (no -k/-p: the default 11/ATGAC)
+		cli = c.get('cli') or {}
 		if files and not bad and k >= 5 and len(p) >= 2:
 			sel = list(range(len(paths)))
 			if len(sel) > 48:
 				sel = sel[:8] + sorted(random.Random(len(paths)).sample(sel[8:], 40))
 			out = _path('.gs')
-			r = CliRunner().invoke(gambit.cli.cli, ['signatures', 'create', '--no-progress', '-c', '2', '-k', str(k), '-p', p, '-o', out]
-			                       + [paths[i] for i in sel])
+			args = ['signatures', 'create', '--no-progress']
+			cores = cli.get('cores', 2)
+			if cores is not None:
+				args += ['-c', str(cores)]
+			if cli.get('defaults'):
+				if (k, p) != (11, 'ATGAC'):
+					ctx.broke('harness: cli defaults requested for a genome that is not 11/ATGAC', str(c)[:200])
+			else:
+				args += ['-k', str(k), '-p', p]
+			args += ['-o', out]
+			mode = cli.get('mode', 'args')
+			lf = None
+			if mode == 'args':
+				args += [paths[i] for i in sel]
+			else:
+				lf = _path('.list')
+				with open(lf, 'w', encoding='utf-8') as f:
+					for i in sel:
+						f.write((paths[i] if mode == 'list' else os.path.relpath(paths[i], _dir)) + '\n')
+				args += ['-l', lf] + (['--ldir', _dir] if mode == 'ldir' else [])
+			r = CliRunner().invoke(gambit.cli.cli, args)
 			ctx.count('cli invocations')
+			ctx.count(f'cli form {mode} cores={cores} ' + ('default-kspec' if cli.get('defaults') else 'k/p given'))
 			if r.exit_code != 0:
 				ctx.violation('genome', dict(c, variants=[files[i][0] for i in sel]),
-				              f'gambit signatures create failed on {len(sel)} variant files of one genome: {r.exception!r} {r.output[:200]}',
+				              f'gambit signatures create ({mode}, cores {cores}) failed on {len(sel)} variant files of one genome: '
+				              f'{r.exception!r} {r.output[:200]}',
 				              impl=repr(r.exception), spec=expect)
 			else:
 				sigs = load_signatures(out)
+				if len(sigs) != len(sel):
+					ctx.violation('genome', dict(c, variants=[files[i][0] for i in sel]),
+					              f'gambit signatures create ({mode}) wrote {len(sigs)} signatures for {len(sel)} files', impl=len(sigs), spec=len(sel))
 				for i, sig in zip(sel, sigs):
 					ctx.count('cli signatures')
 					lst = [int(x) for x in sig]
@@ -240,15 +502,11 @@ def k_genome(ctx, cases):
 						break
 				if hasattr(sigs, 'close'):
 					sigs.close()
-			try:
-				os.unlink(out)
-			except OSError:
-				pass
+			for x in (out, lf):
+				if x:
+					_unlink(x)
 		for path in paths:
-			try:
-				os.unlink(path)
-			except OSError:
-				pass
+			_unlink(path)
 
 
 def _impl_parse(path):
@@ -326,7 +584,183 @@ def k_open(ctx, cases):
 				ctx.broke('correspondence open (open_compressed auto vs open_auto)', f'{c}: impl {str(got)[:100]} model {str(want)[:100]}')
 
 
-KINDS = {'genome': k_genome, 'parse': k_parse, 'open': k_open}
+def k_forms(ctx, cases):
+	"""other ways to reach the same code with the same file: every call form must give the signature of the genome.
+	case: genome (k, prefix, contigs, titles) + variants + `other` (contigs of a different genome, written canonically)."""
+	import csv
+	import pathlib
+	from gambit.kmers import KmerSpec
+	from gambit.seq import SequenceFile
+	from gambit.sigs.calc import calc_file_signature, calc_file_signatures, SetAccumulator, ArrayAccumulator
+	from click.testing import CliRunner
+	import gambit.cli
+
+	reqs = []
+	plan = []
+	for c in cases:
+		contigs, titles, k, p = _contigs_of(c)
+		other = [bytes.fromhex(h) for h in c.get('other', [])]
+		nomodel = sum(map(len, contigs)) + sum(map(len, other)) > MODEL_MAX
+		base = None if nomodel else len(reqs)
+		if not nomodel:
+			reqs.append((103, [k, p, contigs]))
+			reqs.append((103, [k, p, other]))
+		plan.append((c, contigs, titles, other, base))
+	ans = ctx.model(reqs) if ctx.model_ok and reqs else None
+
+	for c, contigs, titles, other, base in plan:
+		k, p = c['k'], c['prefix']
+		kspec = KmerSpec(k, p)
+		expect, expect_o = _pyspec(k, p.encode(), contigs), _pyspec(k, p.encode(), other)
+		if ans is not None and base is not None:
+			if [expect, expect_o] != ans[base:base + 2]:
+				ctx.broke('harness: _pyspec differs from the extracted signature_spec', str(c)[:300])
+			expect, expect_o = ans[base], ans[base + 1]
+		files = []     # (variant, path, gz)
+		for v in c['variants']:
+			recs = apply_variant(contigs, titles, v)
+			data = _render(recs, v)
+			blob = gz_blob(data, v.get('gzm'), v.get('gzseed', 0)) if v['gz'] else data
+			path = _path(v['ext'], v.get('name'))
+			with open(path, 'wb') as f:
+				f.write(blob)
+			files.append((v, path, v['gz']))
+		opath = _path('.fasta')
+		with open(opath, 'wb') as f:
+			f.write(render([(b'o%d' % i, s) for i, s in enumerate(other)], 70, False, True))
+
+		def lst(sig):
+			return [int(x) for x in sig]
+
+		def judge(form, v, fn, want=None):
+			"""fn() -> signature; must equal the k-mer set of the genome"""
+			want = expect if want is None else want
+			ctx.count('form ' + form)
+			try:
+				got = lst(fn())
+			except Exception as e:  # noqa
+				got = type(e).__name__ + ': ' + str(e)[:120]
+			ctx.case(dict(form=form, k=k, prefix=p, nsig=len(want), **(_vdesc(v) if v else {})), nontrivial=len(want) > 0)
+			if got != want:
+				ctx.violation('forms', dict(c, variants=[v] if v else c['variants'], only=form),
+				              f'{form}: signature of the file written as {_vdesc(v) if v else "(all variants)"} is {str(got)[:120]} but the '
+				              f'k-mer set of the genome is {want[:30]}', impl=got, spec=want)
+				return False
+			return True
+
+		only = c.get('only')
+		acc_set = SetAccumulator(k)
+		acc_arr = ArrayAccumulator(k) if k <= 9 else None
+		cwd = os.getcwd()
+		ok = True
+		for v, path, gz in files:
+			forms = {
+				'str path': lambda: calc_file_signature(kspec, SequenceFile(str(path), 'fasta', 'auto')),
+				'pathlib path': lambda: calc_file_signature(kspec, SequenceFile(pathlib.Path(path), 'fasta', 'auto')),
+				'keyword arguments': lambda: calc_file_signature(kspec=kspec, seqfile=SequenceFile(path=path, format='fasta', compression='auto')),
+				'from_paths': lambda: calc_file_signature(kspec, SequenceFile.from_paths([path], 'fasta', 'auto')[0]),
+				'from_paths pathlib': lambda: calc_file_signature(kspec, SequenceFile.from_paths(iter([pathlib.Path(path)]), 'fasta', compression='auto')[0]),
+				'explicit compression': lambda: calc_file_signature(kspec, SequenceFile(path, 'fasta', 'gzip' if gz else None)),
+				'kmerspec numpy k, bytes prefix': lambda: calc_file_signature(KmerSpec(np.int64(k), p.encode()), SequenceFile(path, 'fasta', 'auto')),
+				'kmerspec lower-case prefix': lambda: calc_file_signature(KmerSpec(k, p.lower()), SequenceFile(path, 'fasta', 'auto')),
+				'accumulator=SetAccumulator': lambda: calc_file_signature(kspec, SequenceFile(path, 'fasta', 'auto'), accumulator=SetAccumulator(k)),
+				'open_compressed default + calc_signature': lambda: _via_open(kspec, path),
+			}
+			if not gz:
+				forms['explicit compression "none"'] = lambda: calc_file_signature(kspec, SequenceFile(path, 'fasta', 'none'))
+			if acc_arr is not None:
+				forms['accumulator=ArrayAccumulator'] = lambda: calc_file_signature(kspec, SequenceFile(path, 'fasta', 'auto'), accumulator=ArrayAccumulator(k))
+			for form, fn in forms.items():
+				if only in (None, form):
+					ok &= judge(form, v, fn)
+			# relative path (the working directory is the file's directory), and .absolute() of it
+			if only in (None, 'relative path', 'relative path .absolute()'):
+				os.chdir(os.path.dirname(path))
+				try:
+					rel = SequenceFile(os.path.basename(path), 'fasta', 'auto')
+					ok &= judge('relative path', v, lambda: calc_file_signature(kspec, rel))
+					ok &= judge('relative path .absolute()', v, lambda: calc_file_signature(kspec, rel.absolute()))
+				finally:
+					os.chdir(cwd)
+			# caller-supplied objects reused across calls
+			if only in (None, 'same SequenceFile twice'):
+				sf = SequenceFile(path, 'fasta', 'auto')
+				calc_file_signature(kspec, sf)
+				ok &= judge('same SequenceFile twice', v, lambda: calc_file_signature(kspec, sf))
+			for name, acc in (('reused SetAccumulator after clear()', acc_set), ('reused ArrayAccumulator after clear()', acc_arr)):
+				if acc is not None and only in (None, name):
+					calc_file_signature(kspec, SequenceFile(opath, 'fasta', 'auto'), accumulator=acc)    # dirty it with the other genome
+					acc.clear()
+					ok &= judge(name, v, lambda: calc_file_signature(kspec, SequenceFile(path, 'fasta', 'auto'), accumulator=acc))
+		# several files in one call: variants, the other genome in the middle, the first variant again
+		if files and ok:
+			seq = [SequenceFile(path, 'fasta', 'auto') for v, path, gz in files]
+			mid = len(seq) // 2
+			seq = seq[:mid] + [SequenceFile(opath, 'fasta', 'auto')] + seq[mid:] + [seq[0]]
+			wants = [expect] * mid + [expect_o] + [expect] * (len(files) - mid) + [expect]
+			for form, kw in (('calc_file_signatures concurrency=None', dict(concurrency=None)),
+			                 ('calc_file_signatures threads', dict(concurrency='threads', max_workers=3)),
+			                 ('calc_file_signatures positional', None)):
+				if only not in (None, form):
+					continue
+				ctx.count('form ' + form)
+				try:
+					sl = calc_file_signatures(kspec, seq, **kw) if kw is not None else calc_file_signatures(kspec, tuple(seq), None, 'threads', 1)
+					got = [lst(x) for x in sl]
+				except Exception as e:  # noqa
+					got = type(e).__name__ + ': ' + str(e)[:120]
+				ctx.case(dict(form=form, k=k, prefix=p, files=len(seq)), nontrivial=len(expect) > 0 and expect != expect_o)
+				if got != wants:
+					bad = next((i for i in range(len(wants)) if not isinstance(got, list) or i >= len(got) or got[i] != wants[i]), None)
+					ctx.violation('forms', dict(c, only=form),
+					              f'{form} over {len(seq)} files (variants of one genome, a different genome at position {mid}, the first file '
+					              f'again): result {bad} is {str(got[bad] if isinstance(got, list) and bad is not None and bad < len(got) else got)[:120]}, '
+					              f'the k-mer set of that genome is {wants[bad][:30] if bad is not None else None}', impl=got, spec=wants)
+					ok = False
+		# gambit dist: every variant row must be the same text, at distance 0 from the canonical file
+		if files and ok and only in (None, 'cli dist') and k >= 5 and len(p) >= 2:     # the CLI refuses k < 5 and 1-letter prefixes
+			out = _path('.csv')
+			args = ['dist', '--no-progress', '-k', str(k), '-p', p, '-o', out]
+			for v, path, gz in files:
+				args += ['-q', path]
+			args += ['-r', files[0][1], '-r', opath]
+			if c.get('dist_cores'):
+				args += ['-c', str(c['dist_cores'])]
+			r = CliRunner().invoke(gambit.cli.cli, args)
+			ctx.count('form cli dist')
+			ctx.case(dict(form='cli dist', k=k, prefix=p, files=len(files)), nontrivial=len(expect) > 0)
+			if r.exit_code != 0:
+				ctx.violation('forms', dict(c, only='cli dist'), f'gambit dist failed on variant files of one genome: {r.exception!r} {r.output[:200]}',
+				              impl=repr(r.exception))
+			else:
+				with open(out, newline='') as f:
+					rows = [row[1:] for row in list(csv.reader(f))[1:]]
+				if len(rows) != len(files):
+					ctx.violation('forms', dict(c, only='cli dist'), f'gambit dist wrote {len(rows)} rows for {len(files)} query files', impl=rows)
+				else:
+					for (v, path, gz), row in zip(files, rows):
+						zero = len(expect) == 0 or float(row[0]) == 0.0
+						if row != rows[0] or not zero:
+							ctx.violation('forms', dict(c, variants=[c['variants'][0], v] if v is not c['variants'][0] else [v], only='cli dist'),
+							              f'gambit dist: distances (to the canonical file, to another genome) of the file written as {_vdesc(v)} '
+							              f'are {row}, those of the canonical file are {rows[0]}', impl=row, spec=rows[0])
+							break
+			_unlink(out)
+		for v, path, gz in files:
+			_unlink(path)
+		_unlink(opath)
+
+
+def _via_open(kspec, path):
+	"""open_compressed with its default compression ('auto') + Bio.SeqIO + calc_signature by hand"""
+	from Bio import SeqIO
+	from gambit.util.io import open_compressed
+	from gambit.sigs.calc import calc_signature
+	with open_compressed(path) as f:
+		return calc_signature(kspec, [rec.seq for rec in SeqIO.parse(f, 'fasta')])
+
+
+KINDS = {'genome': k_genome, 'parse': k_parse, 'open': k_open, 'forms': k_forms}
 BATCH = 12
 
 
@@ -492,3 +926,168 @@ def generate(ctx):
 		d = bytes(rng.choice([0x1f, 0x8b, 0x3e, 0x41, 0x0a, 0x08, rng.randrange(256)]) for _ in range(rng.randint(0, 6)))
 		ctx.count('stream:open-random')
 		yield 'open', dict(data=d.hex(), ext=rng.choice(EXTS))
+
+	# ==== streams added by the coverage audit (see the table in the module docstring) ================================
+	yield from _audit_streams(ctx, rng)
+
+
+NAMES = ['my genome.fa', 'génome.fasta', 'ゲノム.fna.gz', 'a.gz.fa', 'x.fa.gz.txt', 'UPPER.FASTA.GZ', 'noext', '.hidden', '-dash.fa',
+         'semi;colon&amp.fa', 'quo\'te".fa', 'tab\tname.fa', 'a,b.fasta', '#hash.fa', 'very' + 'long' * 40 + '.fa', 'dot.', '..fa', 'star*.fa',
+         'percent%20.fa', '[brackets].fa', 'gz', '.gz', 'file.GZ', 'file.bz2', 'file.zip', 'file.xz', '$HOME.fa', '~tilde.fa', 'back\\slash.fa',
+         'file.gzip', 'file.fa.gz.gz', '1f8b']
+IUPAC_ALPHA = b'ACGTACGTACGTacgtRYKMSWBDHVNrykmswbdhvn-'
+
+
+def _genome(rng, k, p, n=None, maxlen=200, alpha=None):
+	"""random multi-contig genome with boundary-sensitive joints (like stream 3)"""
+	plen = len(p)
+	n = n or rng.choice([2, 2, 3, 4, 6])
+	contigs = []
+	for i in range(n):
+		ln = rng.choice([0, 1, plen + k - 1, plen + k, plen + k + 1, rng.randint(10, 60), rng.randint(30, maxlen), maxlen])
+		s = _rand_contig(rng, ln, p, k)
+		if alpha is not None:
+			b = bytearray(s)
+			for _ in range(rng.randint(1, 1 + ln // 8)):
+				if ln:
+					b[rng.randrange(ln)] = rng.choice(alpha)
+			s = bytes(b)
+		contigs.append(s)
+	for i in range(n - 1):
+		if rng.random() < 0.6 and len(contigs[i]) >= plen and len(contigs[i + 1]) >= k:
+			contigs[i] = contigs[i][:-plen] + p
+			contigs[i + 1] = bytes(rng.choice(b'ACGT') for _ in range(k)) + contigs[i + 1][k:]
+	return contigs, [_rand_title(rng) for _ in range(n)]
+
+
+def _kp(rng, ks=(5, 6, 7, 8, 11), plens=(2, 3)):
+	k = rng.choice(ks)
+	return k, bytes(rng.choice(b'ACGT') for _ in range(rng.choice(plens)))
+
+
+def _base_variant(rng, n, contigs, **kw):
+	mx = max([len(s) for s in contigs] + [1])
+	v = dict(omask=rng.getrandbits(max(n, 1)) if rng.random() < 0.8 else 0,
+	         pseed=rng.randrange(1 << 30) if rng.random() < 0.8 else None,
+	         cseed=rng.choice([None, 'u', 'l', rng.randrange(1 << 30), rng.randrange(1 << 30)]),
+	         w=rng.choice([1, 2, 3, 60, 80, mx, mx + 1, rng.randint(1, mx + 1)]), crlf=rng.random() < 0.5, fnl=rng.random() < 0.5,
+	         gz=rng.random() < 0.5, ext=rng.choice(EXTS))
+	v.update(kw)
+	return v
+
+
+def _case(k, p, contigs, titles, vs, **kw):
+	return dict(k=k, prefix=p.decode(), contigs=[s.hex() for s in contigs], titles=[t.hex() for t in titles], variants=vs, **kw)
+
+
+def _audit_streams(ctx, rng):
+	cli_forms = [dict(mode=m, cores=c) for m in ('args', 'list', 'ldir') for c in (None, 1, 3)]
+
+	# ---- A. gzip flavours: levels, stored, FNAME (gzip(1)), all header fields, multi-member, BGZF ------------------
+	for gi in range(ctx.pick(14, 60)):
+		k, p = _kp(rng)
+		contigs, titles = _genome(rng, k, p)
+		vs = [dict(CANON)]
+		for m in GZMODES:
+			for _ in range(2):
+				vs.append(_base_variant(rng, len(contigs), contigs, gz=True, gzm=m, gzseed=rng.randrange(1 << 30)))
+		ctx.count('stream:gzip-flavours')
+		yield 'genome', _case(k, p, contigs, titles, vs, cli=cli_forms[gi % len(cli_forms)])
+	fa = b'>s1 test\r\nACGTTGCA\r\nATAT\r\n>s2\r\nGGATGACCA\r\n'
+	for m in GZMODES:
+		for seed in range(ctx.pick(3, 12)):
+			for ext in ('', '.fa', '.gz'):
+				ctx.count('stream:open-flavours')
+				yield 'open', dict(data=gz_blob(fa, m, seed).hex(), ext=ext, orig=fa.hex())
+
+	# ---- B. ragged layouts: per-record or per-line widths and line endings ---------------------------------------------
+	for gi in range(ctx.pick(14, 60)):
+		k, p = _kp(rng, ks=(2, 3, 5, 6, 7, 9, 12), plens=(1, 2, 3))
+		contigs, titles = _genome(rng, k, p)
+		vs = [dict(CANON)]
+		for i in range(10):
+			vs.append(_base_variant(rng, len(contigs), contigs, rag=rng.randrange(1 << 30), ragmode=('rec', 'line')[i % 2],
+			                        gzm=rng.choice([None, None] + GZMODES)))
+		ctx.count('stream:ragged-layout')
+		yield 'genome', _case(k, p, contigs, titles, vs)
+
+	# ---- C. reverse complement as real tools write it (ambiguity codes complemented), rich alphabets -----------------
+	for gi in range(ctx.pick(12, 50)):
+		k, p = _kp(rng, ks=(3, 5, 6, 7, 8), plens=(1, 2, 3))
+		contigs, titles = _genome(rng, k, p, alpha=IUPAC_ALPHA)
+		n = len(contigs)
+		vs = [dict(CANON)]
+		for i in range(10):
+			vs.append(_base_variant(rng, n, contigs, iupac=True, omask=(rng.getrandbits(n) or 1) if i else (1 << n) - 1))
+		ctx.count('stream:iupac-revcomp')
+		yield 'genome', _case(k, p, contigs, titles, vs)
+
+	# ---- D. unusual file names (spaces, non-ASCII, misleading or upper-case extensions, shell characters) ---------------
+	for gi in range(ctx.pick(8, 30)):
+		k, p = _kp(rng)
+		contigs, titles = _genome(rng, k, p)
+		vs = [dict(CANON)]
+		for name in rng.sample(NAMES, 12):
+			vs.append(_base_variant(rng, len(contigs), contigs, name=name, ext=os.path.splitext(name)[1].lower() if name not in ('.gz', '.hidden') else name,
+			                        gzm=rng.choice([None, 'fname', 'multi'])))
+		ctx.count('stream:unusual-names')
+		yield 'genome', _case(k, p, contigs, titles, vs, cli=cli_forms[(gi * 4 + 1) % len(cli_forms)])
+
+	# ---- E. CLI forms: default k-mer spec (no -k/-p), k > 11 (set accumulator, uint32/uint64), longer prefixes,
+	#         list files, --ldir, no -c / -c 1 / -c 3 (the CLI refuses k < 5 and 1-letter prefixes) ---------------------------------------------------------------------
+	grid = [(11, b'ATGAC', True)] * 4 + [(k, None, False) for k in (5, 10, 12, 13, 16, 17, 20, 31, 32)]
+	for gi, (k, p, dflt) in enumerate(grid * ctx.pick(1, 3)):
+		if p is None:
+			p = bytes(rng.choice(b'ACGT') for _ in range(rng.choice([2, 2, 3, 4, 6])))
+		contigs, titles = _genome(rng, k, p, maxlen=300)
+		vs = [dict(CANON)] + [_base_variant(rng, len(contigs), contigs, gzm=rng.choice([None, 'fname'])) for _ in range(7)]
+		ctx.count('stream:cli-forms')
+		yield 'genome', _case(k, p, contigs, titles, vs, cli=dict(cli_forms[(gi * 2) % len(cli_forms)], defaults=dflt))
+
+	# ---- F. repeated contigs: duplicates, a contig together with its reverse complement, many contigs -------------------
+	for gi in range(ctx.pick(10, 40)):
+		k, p = _kp(rng)
+		contigs, titles = _genome(rng, k, p, n=rng.choice([2, 3, 5]), maxlen=80)
+		m = rng.choice([2, 3, 8, 30])
+		for _ in range(m):
+			s = rng.choice(contigs)
+			r = rng.random()
+			contigs.append(s if r < 0.4 else _rc(s) if r < 0.7 else s.swapcase() if r < 0.85 else s[:len(s) // 2])
+			titles.append(rng.choice(titles) if rng.random() < 0.5 else _rand_title(rng))    # duplicate titles too
+		vs = [dict(CANON)] + [_base_variant(rng, len(contigs), contigs) for _ in range(8)]
+		ctx.count('stream:repeated-contigs')
+		yield 'genome', _case(k, p, contigs, titles, vs)
+
+	# ---- G. large genomes (beyond every I/O buffer; judged without the model): long contigs, many contigs ---------------
+	big = [
+		(7, b'AT', [70000, 20011, 8192, 300], 'ACGT'),
+		(11, b'ATGAC', [131072 + 5, 4096, 65536], 'ACGTacgtN'),
+		(9, b'GC', [rng.randint(40, 700) for _ in range(ctx.pick(150, 600))], 'ACGT'),
+	]
+	if not ctx.quick:
+		big += [(11, b'ATGAC', [1 << 20, 300000], 'ACGT'), (5, b'T', [rng.randint(8000, 9000) for _ in range(40)], 'ACGTN')]
+	for gi, (k, p, lens, alpha) in enumerate(big):
+		n = len(lens)
+		mx = max(lens)
+		vs = [dict(CANON)]
+		layouts = [(1, True, None), (1, False, 'l1'), (3, True, 'multi-eol'), (60, True, 'bgzf'), (61, True, None), (80, False, 'fname'),
+		           (4095, True, 'multi'), (8190, True, None), (8191, True, 'l0'), (8192, False, None), (65536, True, 'multi-eol'), (mx + 1, True, 'hdr')]
+		for i, (w, crlf, gzm) in enumerate(layouts):
+			vs.append(dict(omask=rng.getrandbits(n), pseed=rng.randrange(1 << 30) if i % 3 else None,
+			               cseed=rng.choice([None, 'u', 'l', rng.randrange(1 << 30)]), w=w, crlf=crlf, fnl=bool(i % 2),
+			               gz=gzm is not None or i % 4 == 0, gzm=gzm, gzseed=rng.randrange(1 << 30), ext=EXTS[i % len(EXTS)]))
+		vs.append(_base_variant(rng, n, [b'x' * 90], rag=rng.randrange(1 << 30), ragmode='line', gz=False))
+		vs.append(_base_variant(rng, n, [b'x' * 90], rag=rng.randrange(1 << 30), ragmode='rec', gz=True, gzm='multi-eol'))
+		ctx.count('stream:large-genomes')
+		yield 'genome', dict(k=k, prefix=p.decode(), gen=dict(seed=rng.randrange(1 << 30), lens=lens, alpha=alpha), titles=[], variants=vs,
+		                     cli=dict(cli_forms[gi % len(cli_forms)], defaults=(k, p) == (11, b'ATGAC')))
+
+	# ---- H. call forms of the API and `gambit dist` on the same files ------------------------------------------------------
+	for gi in range(ctx.pick(24, 100)):
+		k, p = _kp(rng, ks=(1, 3, 5, 6, 7, 8, 9, 11, 12, 16, 17, 31, 32), plens=(1, 2, 3, 5))
+		contigs, titles = _genome(rng, k, p)
+		other, _ = _genome(rng, k, p, n=2, maxlen=120)
+		vs = [dict(CANON)] + [_base_variant(rng, len(contigs), contigs, gzm=rng.choice([None, 'fname', 'multi', 'bgzf']),
+		                                    **(dict(name=rng.choice(NAMES)) if rng.random() < 0.3 else {})) for _ in range(3)]
+		ctx.count('stream:call-forms')
+		yield 'forms', _case(k, p, contigs, titles, vs, other=[s.hex() for s in other], dist_cores=rng.choice([None, 1, 2]))
